@@ -431,7 +431,7 @@ def main(tier, seed):
     # boundary of 1- to 4-byte characters) on the OPTIMISED build: the byte-level fast paths are where an out-of-boundary slice becomes a host panic
     # (C13 runs the same cases on the checked build)
     from checks import c13
-    scases, sstates, _ = c13.collect_cases(rep, tier, random.Random(seed + 6), limit=15000 if tier == "quick" else None, tag="c02str")
+    scases, sstates, _ = c13.collect_cases(rep, tier, random.Random(seed + 6), limit=60000 if tier == "quick" else None, tag="c02str")
     nstr = c13.replay_cases(rep, [b for b in binaries if b[0] == "release"] or binaries[-1:], scases)
     ncmp += nstr
     states += sstates
